@@ -19,6 +19,10 @@ func main() {
 		}
 		return
 	}
+	if len(os.Args) >= 3 && os.Args[1] == "c18child" {
+		props.C18Child(os.Args[2])
+		return
+	}
 	if len(os.Args) < 3 {
 		fmt.Println("usage: vcheck <Cxx> <quick|thorough|--replay file>")
 		os.Exit(2)
